@@ -20,6 +20,8 @@ Plan of the proof (indices disappear early; Lemmas/Txt.lean restates the array p
 4. `header_written`, `replace_id` (no `\r\n` in the file), `mapM_tups`, and the assembly `parseShort_blocks`.
 Also: `parseShort_no_tiers` (IndexError), `parseShort_keyword_counterexample` (label `IntervalTier`: ValueError),
 `segOK_row_iff` (exactly which labels `NoKw` excludes), `sample_read_back` + `#guard`s (non-vacuity).
+`parseShort_emit_strip` is the theorem WITHOUT the strip-invariance hypothesis: every name and label comes back stripped
+(`word_written_strip`, `readBlock_written_strip`); `parseShort_name_blank`: a tier named `" a "` comes back as `"a"`.
 -/
 
 namespace C01
@@ -385,11 +387,50 @@ theorem rowWord_plain (seg : List Char) (hne : seg ≠ []) (hs : NoEdgeSpace seg
 theorem row_length (l : String) : (row l).length = (escapeL l.toList).length + 2 := by
   simp [row]
 
-/-- **`_fetchTextRow` on a written text row** returns the label itself (every strip-invariant label), and the index
-just after the newline that follows the closing quote -/
-theorem fetchTextRow_row (s : Txt) (i : Nat) (l : String) (rest : List Char)
-    (h : s.toList.drop i = row l ++ '\n' :: rest) (hs : NoEdgeSpace l.toList) :
-    Rd.fetchTextRow s i = .ok (l.toList.toArray, i + (row l).length + 1) := by
+/-! ### `.strip()` commutes with quote doubling (a quote is not white space) -/
+
+theorem escapeL_append (a b : List Char) : escapeL (a ++ b) = escapeL a ++ escapeL b := by
+  induction a with
+  | nil => rfl
+  | cons c cs ih =>
+    by_cases h : c = q
+    · simp [escapeL, h, ih]
+    · simp [escapeL, h, ih]
+
+theorem escapeL_reverse (l : List Char) : escapeL l.reverse = (escapeL l).reverse := by
+  induction l with
+  | nil => rfl
+  | cons c cs ih =>
+    rw [List.reverse_cons, escapeL_append, ih]
+    by_cases h : c = q
+    · simp [escapeL, h]
+    · simp [escapeL, h]
+
+theorem stripL_escapeL (l : List Char) : stripL (escapeL l) = escapeL (stripL l) := by
+  induction l with
+  | nil => rfl
+  | cons c cs ih =>
+    by_cases h : c = q
+    · subst h
+      simp [escapeL, stripL, q_not_space]
+    · by_cases hs : pyIsSpace c = true
+      · simp [escapeL, stripL, h, hs, ih]
+      · simp [escapeL, stripL, h, hs]
+
+theorem stripList_escapeL (l : List Char) : stripList (escapeL l) = escapeL (stripList l) := by
+  unfold stripList
+  rw [stripL_escapeL, ← escapeL_reverse, stripL_escapeL, ← escapeL_reverse]
+
+/-- `.strip()` then un-doubling, applied to the characters between the outer quotes of a written row, gives the
+STRIPPED text — for EVERY text (`C01.word_written` is the case of a strip-invariant one) -/
+theorem word_written_strip (s : List Char) : unescapeL (stripList (escapeL s)) = stripList s := by
+  rw [stripList_escapeL, unescape_escape]
+
+/-- **`_fetchTextRow` on a written text row**, for EVERY name/label: it returns the text with leading and trailing white
+space removed (`str.strip()`), and the index just after the newline that follows the closing quote -/
+theorem fetchTextRow_row_strip (s : Txt) (i : Nat) (l : String) (rest : List Char)
+    (h : s.toList.drop i = row l ++ '\n' :: rest) :
+    Rd.fetchTextRow s i = .ok ((stripList l.toList).toArray, i + (row l).length + 1) := by
   have h1 : s.toList.drop (i + 1) = escapeL l.toList ++ q :: '\n' :: rest := by
     have := drop_add_of_drop s.toList i [q] (escapeL l.toList ++ q :: '\n' :: rest) (by rw [h]; simp [row])
     simpa using this
@@ -406,14 +447,23 @@ theorem fetchTextRow_row (s : Txt) (i : Nat) (l : String) (rest : List Char)
   have hge : (row l).toArray.size ≥ 2 := by simp only [List.size_toArray, row_length]; omega
   unfold Rd.fetchTextRow
   rw [h1, hscan]
-  simp only [bind, Except.bind, he, hsl, hge, if_true, hin, List.toList_toArray, word_written l.toList hs]
+  simp only [bind, Except.bind, he, hsl, hge, if_true, hin, List.toList_toArray, word_written_strip l.toList]
   rw [index_nl s _ [] rest hnl (by simp)]
   rfl
+
+/-- **`_fetchTextRow` on a written text row** returns the label itself (every strip-invariant label), and the index
+just after the newline that follows the closing quote -/
+theorem fetchTextRow_row (s : Txt) (i : Nat) (l : String) (rest : List Char)
+    (h : s.toList.drop i = row l ++ '\n' :: rest) (hs : NoEdgeSpace l.toList) :
+    Rd.fetchTextRow s i = .ok (l.toList.toArray, i + (row l).length + 1) := by
+  rw [fetchTextRow_row_strip s i l rest h, stripList_of_noEdge _ hs]
 
 /-! ## numerals -/
 
 /-- what the proofs need from a rendered time (`repr`, `"%d"`): it is a non-empty single line, strip-invariant,
-does not contain a tier keyword and is not wrapped in quotes.  CPython's output consists of `0-9 . e + - inf nan`. -/
+does not contain a tier keyword and is not wrapped in quotes.  CPython's output consists of `0-9 . e + - inf nan`
+(`my_math.numToStr` raises for `inf` / `nan`), so this is a property of the renderer that holds for EVERY float, negative
+ones included (`C03.intS_word` for signed integers) — it excludes no time of any property's quantifier. -/
 structure NumWord (w : String) : Prop where
   ne : w.toList ≠ []
   noNl : '\n' ∉ w.toList
@@ -458,10 +508,14 @@ theorem fetchRow_eof (s : Txt) (i : Nat) (h : s.toList.drop i = []) : Rd.fetchRo
 theorem strip_label (l : String) (hs : NoEdgeSpace l.toList) : toStr (strip l.toList.toArray) = l := by
   rw [strip_toArray, stripList_of_noEdge _ hs, toStr_toArray]
 
+/-- the second `.strip()` (of the entry loops) on an already stripped label -/
+theorem strip_strip_label (l : String) : toStr (strip (stripList l.toList).toArray) = pyStrip l := by
+  rw [strip_toArray, stripList_idem]; rfl
+
 theorem shortEntries_iv (num : α → String) (hnum : ∀ x, NumWord (num x)) (s : Txt) (es : List (Iv α))
-    (hes : ∀ e ∈ es, NoEdgeSpace e.l.toList) (fuel i : Nat) (acc : List (List String))
+    (fuel i : Nat) (acc : List (List String))
     (h : s.toList.drop i = joinNl (es.flatMap (ivSegs num))) (hf : es.length < fuel) :
-    Rd.shortEntries s true fuel i acc = acc.reverse ++ es.map fun e => [num e.s, num e.e, e.l] := by
+    Rd.shortEntries s true fuel i acc = acc.reverse ++ es.map fun e => [num e.s, num e.e, pyStrip e.l] := by
   induction es generalizing fuel i acc with
   | nil =>
     cases fuel with
@@ -478,16 +532,16 @@ theorem shortEntries_iv (num : α → String) (hnum : ∀ x, NumWord (num x)) (s
       have h1 := drop_line _ _ _ _ h
       have r2 := fetchRow_num s _ _ (hnum e.e) _ h1
       have h2 := drop_line _ _ _ _ h1
-      have r3 := fetchTextRow_row s _ e.l _ h2 (hes e (by simp))
+      have r3 := fetchTextRow_row_strip s _ e.l _ h2
       have h3 := drop_line _ _ _ _ h2
       simp only [Rd.shortEntries, if_true, r1, r2, r3, bind, Except.bind, pure, Except.pure]
-      rw [ih (fun x hx => hes x (List.mem_cons_of_mem _ hx)) fuel _ _ h3 (by simp only [List.length_cons] at hf; omega)]
-      simp [toStr_toArray, strip_label e.l (hes e (by simp))]
+      rw [ih fuel _ _ h3 (by simp only [List.length_cons] at hf; omega)]
+      simp [toStr_toArray, strip_strip_label e.l]
 
 theorem shortEntries_pt (num : α → String) (hnum : ∀ x, NumWord (num x)) (s : Txt) (ps : List (Pt α))
-    (hps : ∀ p ∈ ps, NoEdgeSpace p.l.toList) (fuel i : Nat) (acc : List (List String))
+    (fuel i : Nat) (acc : List (List String))
     (h : s.toList.drop i = joinNl (ps.flatMap (ptSegs num))) (hf : ps.length < fuel) :
-    Rd.shortEntries s false fuel i acc = acc.reverse ++ ps.map fun p => [num p.t, p.l] := by
+    Rd.shortEntries s false fuel i acc = acc.reverse ++ ps.map fun p => [num p.t, pyStrip p.l] := by
   induction ps generalizing fuel i acc with
   | nil =>
     cases fuel with
@@ -502,11 +556,11 @@ theorem shortEntries_pt (num : α → String) (hnum : ∀ x, NumWord (num x)) (s
       simp only [List.flatMap_cons, ptSegs, joinNl, List.cons_append, List.nil_append] at h
       have r1 := fetchRow_num s i _ (hnum p.t) _ h
       have h1 := drop_line _ _ _ _ h
-      have r2 := fetchTextRow_row s _ p.l _ h1 (hps p (by simp))
+      have r2 := fetchTextRow_row_strip s _ p.l _ h1
       have h2 := drop_line _ _ _ _ h1
       simp only [Rd.shortEntries, Bool.false_eq_true, if_false, r1, r2, bind, Except.bind, pure, Except.pure]
-      rw [ih (fun x hx => hps x (List.mem_cons_of_mem _ hx)) fuel _ _ h2 (by simp only [List.length_cons] at hf; omega)]
-      simp [toStr_toArray, strip_label p.l (hps p (by simp))]
+      rw [ih fuel _ _ h2 (by simp only [List.length_cons] at hf; omega)]
+      simp [toStr_toArray, strip_strip_label p.l]
 
 /-! ## one tier block -/
 
@@ -515,7 +569,9 @@ def texts : AnyTier α → List String
   | .I t => t.name :: t.es.map (·.l)
   | .P t => t.name :: t.ps.map (·.l)
 
-/-- names and labels are strip-invariant (the tier constructors strip labels; C01 quantifies over trimmed names) -/
+/-- names and labels are strip-invariant.  For LABELS this is enforced by the code (the `IntervalTier` / `PointTier`
+constructors, `insertEntry`, … strip every label); for NAMES it is C01's own quantifier ("names … trimmed") and NOT enforced
+by any constructor — `parseShort_emit_strip` needs neither, `parseShort_name_blank` shows what happens to such a name. -/
 def Stripped' (t : AnyTier α) : Prop := ∀ s ∈ texts t, pyStrip s = s
 
 /-- what the reader is expected to return for a tier -/
@@ -525,6 +581,40 @@ def rawTier (num : α → String) : AnyTier α → RawTier
 
 /-- what the reader is expected to return for a textgrid written with span `lo`, `hi` -/
 def rawOf (num : α → String) (g : Tg α) (lo hi : α) : RawTg := ⟨num lo, num hi, g.tiers.map (rawTier num)⟩
+
+/-- the tier with `str.strip()` applied to its name and to every label — what the SHORT-format reader returns for a tier
+whose name or labels have leading / trailing white space (`_fetchTextRow` strips every text, names included) -/
+def stripT : AnyTier α → AnyTier α
+  | .I t => .I { t with name := pyStrip t.name, es := t.es.map fun e => { e with l := pyStrip e.l } }
+  | .P t => .P { t with name := pyStrip t.name, ps := t.ps.map fun p => { p with l := pyStrip p.l } }
+
+/-- the textgrid with every name and label stripped -/
+def stripTg (g : Tg α) : Tg α := { g with tiers := g.tiers.map stripT }
+
+theorem stripT_of_stripped (t : AnyTier α) (hs : Stripped' t) : stripT t = t := by
+  cases t with
+  | I t =>
+    have hn : pyStrip t.name = t.name := hs t.name (by simp [texts])
+    have he : (t.es.map fun e => ({ e with l := pyStrip e.l } : Iv α)) = t.es := by
+      rw [List.map_congr_left (g := id), List.map_id]
+      intro e he
+      have : pyStrip e.l = e.l := hs e.l (by simp only [texts, List.mem_cons, List.mem_map]; exact Or.inr ⟨e, he, rfl⟩)
+      simp [this]
+    simp only [stripT, hn, he]
+  | P t =>
+    have hn : pyStrip t.name = t.name := hs t.name (by simp [texts])
+    have he : (t.ps.map fun p => ({ p with l := pyStrip p.l } : Pt α)) = t.ps := by
+      rw [List.map_congr_left (g := id), List.map_id]
+      intro p hp
+      have : pyStrip p.l = p.l := hs p.l (by simp only [texts, List.mem_cons, List.mem_map]; exact Or.inr ⟨p, hp, rfl⟩)
+      simp [this]
+    simp only [stripT, hn, he]
+
+theorem stripTg_of_stripped (g : Tg α) (hs : ∀ t ∈ g.tiers, Stripped' t) : stripTg g = g := by
+  unfold stripTg
+  rw [List.map_congr_left (g := id) (fun t ht => stripT_of_stripped t (hs t ht)), List.map_id]
+
+theorem toStr_stripList (l : String) : toStr (stripList l.toList).toArray = pyStrip l := rfl
 
 theorem digit_not_space (c : Char) (h : c.isDigit = true) : pyIsSpace c = false := by
   simp only [Char.isDigit, Bool.and_eq_true, decide_eq_true_eq, ge_iff_le] at h
@@ -566,22 +656,20 @@ theorem length_le_joinNl_flatMap {β : Type} (l : List β) (f : β → List (Lis
       | cons a as => simp only [joinNl, List.length_append, List.length_cons]; omega
     omega
 
-/-- **(a) per-block reading**: the tier block written by the emitter is read back as the tier — class, name, span and
-every entry, labels character for character; the entry loop stops at the end of the block -/
-theorem readBlock_written (num : α → String) (hnum : ∀ x, NumWord (num x)) (t : AnyTier α) (hs : Stripped' t) :
-    Rd.readBlock (blockL (blockOf num t)).toArray (isI t) = .ok (rawTier num t) := by
+/-- **(a) per-block reading, every tier**: the tier block written by the emitter is read back as the tier with its name and
+labels STRIPPED (`str.strip()`) — class, span and every entry, labels otherwise character for character; the entry loop
+stops at the end of the block.  No hypothesis on names and labels. -/
+theorem readBlock_written_strip (num : α → String) (hnum : ∀ x, NumWord (num x)) (t : AnyTier α) :
+    Rd.readBlock (blockL (blockOf num t)).toArray (isI t) = .ok (rawTier num (stripT t)) := by
   cases t with
   | I t =>
-    have hname : NoEdgeSpace t.name.toList := (pyStrip_eq_iff _).1 (hs t.name (by simp [texts]))
-    have hes : ∀ e ∈ t.es, NoEdgeSpace e.l.toList := fun e he =>
-      (pyStrip_eq_iff _).1 (hs e.l (by simp only [texts, List.mem_cons, List.mem_map]; exact Or.inr ⟨e, he, rfl⟩))
     generalize hS : (blockL (blockOf num (AnyTier.I t))).toArray = s
     have h0 : s.toList.drop 0 = kw true ++ '\n' :: (row t.name ++ '\n' :: ((num t.lo).toList ++ '\n' :: ((num t.hi).toList ++ '\n' ::
         ((toString t.es.length).toList ++ '\n' :: joinNl (t.es.flatMap (ivSegs num)))))) := by
       rw [← hS]; simp [blockL, blockOf, isI, bodySegs, joinNl]
     have r0 := fetchRow_line s 0 _ _ h0 (nl_not_mem_kw true) (kw_strip_ne true)
     have h1 := drop_line _ _ _ _ h0
-    have r1 := fetchTextRow_row s _ t.name _ h1 hname
+    have r1 := fetchTextRow_row_strip s _ t.name _ h1
     have h2 := drop_line _ _ _ _ h1
     have r2 := fetchRow_num s _ _ (hnum t.lo) _ h2
     have h3 := drop_line _ _ _ _ h2
@@ -595,19 +683,16 @@ theorem readBlock_written (num : α → String) (hnum : ∀ x, NumWord (num x)) 
         rw [← h5, List.length_drop, Array.length_toList]; omega
       omega
     simp only [Rd.readBlock, isI, r0, r1, r2, r3, r4, bind, Except.bind, pure, Except.pure]
-    rw [shortEntries_iv num hnum s t.es hes _ _ [] h5 hfuel]
-    simp [rawTier, toStr_toArray]
+    rw [shortEntries_iv num hnum s t.es _ _ [] h5 hfuel]
+    simp [rawTier, stripT, toStr_toArray, toStr_stripList, Function.comp_def]
   | P t =>
-    have hname : NoEdgeSpace t.name.toList := (pyStrip_eq_iff _).1 (hs t.name (by simp [texts]))
-    have hps : ∀ p ∈ t.ps, NoEdgeSpace p.l.toList := fun p hp =>
-      (pyStrip_eq_iff _).1 (hs p.l (by simp only [texts, List.mem_cons, List.mem_map]; exact Or.inr ⟨p, hp, rfl⟩))
     generalize hS : (blockL (blockOf num (AnyTier.P t))).toArray = s
     have h0 : s.toList.drop 0 = kw false ++ '\n' :: (row t.name ++ '\n' :: ((num t.lo).toList ++ '\n' :: ((num t.hi).toList ++ '\n' ::
         ((toString t.ps.length).toList ++ '\n' :: joinNl (t.ps.flatMap (ptSegs num)))))) := by
       rw [← hS]; simp [blockL, blockOf, isI, bodySegs, joinNl]
     have r0 := fetchRow_line s 0 _ _ h0 (nl_not_mem_kw false) (kw_strip_ne false)
     have h1 := drop_line _ _ _ _ h0
-    have r1 := fetchTextRow_row s _ t.name _ h1 hname
+    have r1 := fetchTextRow_row_strip s _ t.name _ h1
     have h2 := drop_line _ _ _ _ h1
     have r2 := fetchRow_num s _ _ (hnum t.lo) _ h2
     have h3 := drop_line _ _ _ _ h2
@@ -621,8 +706,14 @@ theorem readBlock_written (num : α → String) (hnum : ∀ x, NumWord (num x)) 
         rw [← h5, List.length_drop, Array.length_toList]; omega
       omega
     simp only [Rd.readBlock, isI, r0, r1, r2, r3, r4, bind, Except.bind, pure, Except.pure]
-    rw [shortEntries_pt num hnum s t.ps hps _ _ [] h5 hfuel]
-    simp [rawTier, toStr_toArray]
+    rw [shortEntries_pt num hnum s t.ps _ _ [] h5 hfuel]
+    simp [rawTier, stripT, toStr_toArray, toStr_stripList, Function.comp_def]
+
+/-- **(a) per-block reading**: the tier block written by the emitter is read back as the tier — class, name, span and
+every entry, labels character for character; the entry loop stops at the end of the block -/
+theorem readBlock_written (num : α → String) (hnum : ∀ x, NumWord (num x)) (t : AnyTier α) (hs : Stripped' t) :
+    Rd.readBlock (blockL (blockOf num t)).toArray (isI t) = .ok (rawTier num t) := by
+  rw [readBlock_written_strip num hnum t, stripT_of_stripped t hs]
 
 /-! ## the CRLF normalisation step is the identity on a written file -/
 
@@ -999,20 +1090,28 @@ theorem ofString_emit (num : α → String) (g : Tg α) (lo hi : α) :
   unfold Txt.ofString
   rw [emit_toList]
 
-/-- **C01, short format, whole file**: praatio's short-format reader applied to the text praatio's short-format
-emitter writes for ANY textgrid with at least one tier returns exactly that textgrid: the tiers in order, their
-class, name and span, every entry, labels character for character; times as the numerals that were written. -/
-theorem parseShort_emit (num : α → String) (hnum : ∀ x, NumWord (num x)) (g : Tg α) (lo hi : α)
+/-- **C01, short format, whole file, EVERY name and label**: praatio's short-format reader applied to the text praatio's
+short-format emitter writes for ANY textgrid with at least one tier returns that textgrid with `str.strip()` applied to
+every tier name and every label (`stripTg`), and nothing else changed: the tiers in order, their class and span, every entry;
+times as the numerals that were written.  No strip-invariance hypothesis: labels always are strip-invariant in memory (the
+tier constructors strip them), so for labels `stripTg` changes nothing; tier NAMES are not stripped by any constructor, and a
+name with leading or trailing white space comes back without it (`parseShort_name_blank`; the long and the two JSON formats
+keep such a name, `C03.long_short_name_blank_counterexample`).
+
+Remaining hypotheses: `hnum` — a property of the numeral renderer, true of CPython's `repr`/`"%d"` output for every float;
+`hne` — the excluded case is `parseShort_no_tiers` (C01 quantifies over 1..n tiers); `hkw` — known reader defect A10, needed
+(`parseShort_keyword_counterexample`); `hcr` — C01 quantifies over texts without carriage returns (`NoCRLF` is weaker: a lone
+`\r` is allowed and survives at this level; a `\r\n` is rewritten to `\n` by the reader, see the `#guard` below). -/
+theorem parseShort_emit_strip (num : α → String) (hnum : ∀ x, NumWord (num x)) (g : Tg α) (lo hi : α)
     (hne : g.tiers ≠ [])
     (hkw : ∀ t ∈ g.tiers, NoKw t)
-    (hstr : ∀ t ∈ g.tiers, Stripped' t)
     (hcr : ∀ t ∈ g.tiers, NoCRLF t) :
-    Rd.parseShort (Txt.ofString (tgToShort num g lo hi)) = .ok (rawOf num g lo hi) := by
+    Rd.parseShort (Txt.ofString (tgToShort num g lo hi)) = .ok (rawOf num (stripTg g) lo hi) := by
   rw [ofString_emit, parseShort_blocks num hnum lo hi _ (blockOf num) g.tiers
     (fun t ht s hs => body_ok num hnum t (hkw t ht) (hcr t ht) s hs)]
-  have hm := mapM_tups (blockOf num) (rawTier num)
+  have hm := mapM_tups (blockOf num) (fun t => rawTier num (stripT t))
     (joinNl (hdrSegs num lo hi g.tiers.length) ++ (g.tiers.map (blockOf num)).flatMap blockL).toArray g.tiers
-    (joinNl (hdrSegs num lo hi g.tiers.length)) rfl (fun t ht => readBlock_written num hnum t (hstr t ht))
+    (joinNl (hdrSegs num lo hi g.tiers.length)) rfl (fun t _ => readBlock_written_strip num hnum t)
   cases htp : tups (joinNl (hdrSegs num lo hi g.tiers.length)).length (g.tiers.map (blockOf num)) with
   | nil =>
     cases hts : g.tiers with
@@ -1020,7 +1119,20 @@ theorem parseShort_emit (num : α → String) (hnum : ∀ x, NumWord (num x)) (g
     | cons t ts => rw [hts] at htp; simp [tups] at htp
   | cons tp tps =>
     rw [htp] at hm
-    simp only [hm, bind, Except.bind, pure, Except.pure, rawOf]
+    simp only [hm, bind, Except.bind, pure, Except.pure, rawOf, stripTg, List.map_map, Function.comp_def]
+
+/-- **C01, short format, whole file**: praatio's short-format reader applied to the text praatio's short-format
+emitter writes for ANY textgrid with at least one tier returns exactly that textgrid: the tiers in order, their
+class, name and span, every entry, labels character for character; times as the numerals that were written.
+(`hstr`: C01 quantifies over trimmed names, and labels are stripped by the tier constructors; without it:
+`parseShort_emit_strip`.) -/
+theorem parseShort_emit (num : α → String) (hnum : ∀ x, NumWord (num x)) (g : Tg α) (lo hi : α)
+    (hne : g.tiers ≠ [])
+    (hkw : ∀ t ∈ g.tiers, NoKw t)
+    (hstr : ∀ t ∈ g.tiers, Stripped' t)
+    (hcr : ∀ t ∈ g.tiers, NoCRLF t) :
+    Rd.parseShort (Txt.ofString (tgToShort num g lo hi)) = .ok (rawOf num g lo hi) := by
+  rw [parseShort_emit_strip num hnum g lo hi hne hkw hcr, stripTg_of_stripped g hstr]
 
 /-- the reader raises `IndexError` on a written file without tiers (`tupleList[0][0]`), so an empty textgrid is not
 read back — hypothesis `g.tiers ≠ []` of `parseShort_emit` is needed -/
@@ -1204,6 +1316,51 @@ theorem sample_hyps :
 theorem sample_read_back :
     Rd.parseShort (Txt.ofString (tgToShort numN sampleTg 0 5)) = .ok (rawOf numN sampleTg 0 5) :=
   parseShort_emit numN numN_word sampleTg 0 5 sample_hyps.1 sample_hyps.2.1 sample_hyps.2.2.1 sample_hyps.2.2.2
+
+/-! ### a tier NAME with surrounding blanks (no constructor strips names) comes back stripped from the short format -/
+
+/-- one interval tier named `" a "` (blank, `a`, blank) with the single interval (0, 1, `x`) -/
+def blankNameTg : Tg Nat := ⟨[.I ⟨" a ", [⟨0, 1, "x"⟩], 0, 2⟩], none, none⟩
+
+theorem blankName_hyps : blankNameTg.tiers ≠ [] ∧ (∀ t ∈ blankNameTg.tiers, NoKw t) ∧ (∀ t ∈ blankNameTg.tiers, NoCRLF t) := by
+  refine ⟨by simp [blankNameTg], ?_, ?_⟩
+  · intro t ht
+    simp only [blankNameTg, List.mem_cons, List.not_mem_nil, or_false] at ht
+    subst ht
+    intro s hs
+    simp only [texts, List.map_cons, List.map_nil, List.mem_cons, List.not_mem_nil, or_false] at hs
+    rcases hs with rfl | rfl <;> exact segOK_of_occs _ (by decide) (by decide)
+  · intro t ht
+    simp only [blankNameTg, List.mem_cons, List.not_mem_nil, or_false] at ht
+    subst ht
+    intro s hs
+    simp only [texts, List.map_cons, List.map_nil, List.mem_cons, List.not_mem_nil, or_false] at hs
+    rcases hs with rfl | rfl <;> decide
+
+/-- **the strip-invariance hypothesis on NAMES is needed for an exact round trip through the short format**: the tier named
+`" a "` — a legal in-memory object, no constructor strips names — satisfies every other hypothesis of `parseShort_emit`;
+the file written for it is read back with the tier renamed to `"a"` (`_fetchTextRow` strips every text).  Replayed on
+praatio: `Textgrid` with `IntervalTier(" a ", [(0, 1, "x")], 0, 2)`, `save(fn, "short_textgrid", False)`, `openTextgrid(fn,
+True).tierNames == ("a",)`; the long format and the two JSON formats return `(" a ",)`.  Outside C01's quantifier ("names
+… trimmed"). -/
+theorem parseShort_name_blank :
+    Rd.parseShort (Txt.ofString (tgToShort numN blankNameTg 0 2)) =
+      .ok ⟨"0", "2", [⟨"IntervalTier", "a", "0", "2", [["0", "1", "x"]]⟩]⟩ ∧
+    Rd.parseShort (Txt.ofString (tgToShort numN blankNameTg 0 2)) ≠ .ok (rawOf numN blankNameTg 0 2) := by
+  have h := parseShort_emit_strip numN numN_word blankNameTg 0 2 blankName_hyps.1 blankName_hyps.2.1 blankName_hyps.2.2
+  have e : rawOf numN (stripTg blankNameTg) 0 2 = ⟨"0", "2", [⟨"IntervalTier", "a", "0", "2", [["0", "1", "x"]]⟩]⟩ := by
+    have h1 : pyStrip " a " = "a" := by decide
+    have h2 : pyStrip "x" = "x" := by decide
+    have h3 : numN 0 = "0" ∧ numN 1 = "1" ∧ numN 2 = "2" := by decide
+    simp only [rawOf, stripTg, blankNameTg, List.map_cons, List.map_nil, stripT, rawTier, h1, h2, h3]
+  rw [e] at h
+  refine ⟨h, ?_⟩
+  rw [h]
+  intro hc
+  have hn := congrArg (fun r => match r with
+    | Except.ok (r : RawTg) => r.tiers.map (fun (t : RawTier) => t.name) | Except.error _ => []) hc
+  revert hn
+  decide
 
 def rawTierEq (a b : RawTier) : Bool :=
   a.cls == b.cls && a.name == b.name && a.xmin == b.xmin && a.xmax == b.xmax && a.entries == b.entries
